@@ -1,5 +1,98 @@
-(* C19 — placeholder until proofs/PolyDomainFacts.v lands. *)
-From Coq Require Import List. Import ListNotations.
-Require Import Py Sem Term Poly Tactics PolyDomain.
-Example C19_model_runs : poly_order (Some [2%nat]) = Some [2%nat].
-Proof. reflexivity. Qed.
+(* C19 — equality, hashing and copying of terms, lists and contracts are coherent.  Contract equality is the T1 translation of
+   IoContract.__eq__ (regenerated on every run: it compares the four fields, the OTHER contract's outputs included); term
+   equality/keys from model/Term.v; hash(x) = H(key x) for an arbitrary H.  Statements only; proofs in proofs/EqFacts.v,
+   proofs/TermFacts.v. *)
+From Coq Require Import List String Bool QArith Reals.
+Import ListNotations.
+Require Import Py ListsGen ConstGen AlgebraGen AlgebraSpec IfaceSpec Sem Term Poly Tactics PolyDomain PolySpec TermFacts PolyFacts TacticsFacts PolyDomainFacts EqFacts PolyKeepFacts.
+
+(* equal iff input lists, output lists, assumptions and guarantees are all equal (any domain) *)
+Theorem C19_contract_eq_fields :
+  forall (D : Domain) (c d : contract),
+       IoContract_eq c d = true <->
+       py_eqb (c_inputvars c) (c_inputvars d) = true /\
+       py_eqb (c_outputvars c) (c_outputvars d) = true /\
+       TermList_eq (c_a c) (c_a d) = true /\ TermList_eq (c_g c) (c_g d) = true.
+Proof. exact @IoContract_eq_iff. Qed.
+Print Assumptions C19_contract_eq_fields.
+
+(* reflexive *)
+Theorem C19_contract_eq_refl :
+  forall (O : oracle) (c : pcontract O), wfc_t O c -> IoContract_eq c c = true.
+Proof. exact @pcontract_eq_refl. Qed.
+Print Assumptions C19_contract_eq_refl.
+
+(* symmetric *)
+Theorem C19_contract_eq_sym :
+  forall (O : oracle) (c d : pcontract O),
+       wfc_t O c -> wfc_t O d -> IoContract_eq c d = IoContract_eq d c.
+Proof. exact @pcontract_eq_sym. Qed.
+Print Assumptions C19_contract_eq_sym.
+
+(* transitive *)
+Theorem C19_contract_eq_trans :
+  forall (O : oracle) (c d e : pcontract O),
+       wfc_t O c ->
+       wfc_t O d ->
+       wfc_t O e -> IoContract_eq c d = true -> IoContract_eq d e = true -> IoContract_eq c e = true.
+Proof. exact @pcontract_eq_trans. Qed.
+Print Assumptions C19_contract_eq_trans.
+
+(* equal contracts have equal hash keys *)
+Theorem C19_contract_eq_hash :
+  forall (O : oracle) (c d : pcontract O),
+       wfc_t O c ->
+       wfc_t O d ->
+       IoContract_eq c d = true ->
+       let
+       '(i1, o1, a1, g1) := IoContract_hash_key c in
+        let
+        '(i2, o2, a2, g2) := IoContract_hash_key d in
+         i1 = i2 /\ o1 = o2 /\ keys_agree a1 a2 /\ keys_agree g1 g2.
+Proof. exact @pcontract_eq_hash. Qed.
+Print Assumptions C19_contract_eq_hash.
+
+(* term equality symmetric *)
+Theorem C19_term_eq_sym :
+  forall t1 t2 : pterm, wft t1 -> wft t2 -> term_eqb_p t1 t2 = term_eqb_p t2 t1.
+Proof. exact @term_eqb_sym. Qed.
+Print Assumptions C19_term_eq_sym.
+
+(* term equality transitive *)
+Theorem C19_term_eq_trans :
+  forall t1 t2 t3 : pterm,
+       wft t1 ->
+       wft t2 -> wft t3 -> term_eqb_p t1 t2 = true -> term_eqb_p t2 t3 = true -> term_eqb_p t1 t3 = true.
+Proof. exact @term_eqb_trans. Qed.
+Print Assumptions C19_term_eq_trans.
+
+(* equal terms have equal keys (hash equally) *)
+Theorem C19_term_eq_key :
+  forall t1 t2 : pterm,
+       wft t1 -> wft t2 -> term_eqb_p t1 t2 = true -> key_eqb (term_key t1) (term_key t2) = true.
+Proof. exact @term_eqb_key. Qed.
+Print Assumptions C19_term_eq_key.
+
+(* a copy of a term is equal to (and is) its original *)
+Theorem C19_term_copy :
+  forall t : pterm, wft' t -> term_eqb_p (term_copy t) t = true /\ term_copy t = t.
+Proof. exact @term_copy_eq. Qed.
+Print Assumptions C19_term_copy.
+
+(* equal lists have equal key lists *)
+Theorem C19_list_eq_keys :
+  forall l1 l2 : list pterm,
+       Forall wft l1 -> Forall wft l2 -> tlist_eqb l1 l2 = true -> keys_agree l1 l2.
+Proof. exact @tlist_eqb_keys. Qed.
+Print Assumptions C19_list_eq_keys.
+
+(* a copy has the same interface and assumptions and the re-simplified guarantees *)
+Theorem C19_contract_copy :
+  forall (O : oracle) (c c' : pcontract O),
+       poly_copy O c = inl c' ->
+       c_inputvars c' = c_inputvars c /\
+       c_outputvars c' = c_outputvars c /\
+       c_a c' = c_a c /\ poly_simplify O (c_g c) (Some (c_a c)) = inl (c_g c').
+Proof. exact @pcontract_copy_inv. Qed.
+Print Assumptions C19_contract_copy.
+
